@@ -1,6 +1,6 @@
 SPECIFICATION Spec
 CONSTANT Cfg <- MCCfg3
-CONSTANT MaxExp = 3
+CONSTANT MaxExp = 2
 CONSTRAINT Bounded
 INVARIANT Protocol
 INVARIANT MaskSound
